@@ -69,6 +69,7 @@ type Op struct {
 	Doc       int
 	Faults    [nFuncs]uint64
 	Panics    [nFuncs]uint64 // user functions that panic (fault kind "callback panics")
+	LibErr    bool           // failing user functions return library error values
 	Inject    int
 	Arg       int
 	RefFn     *ParsedFn
@@ -369,6 +370,7 @@ func (w *World) execOp(t *Task, idx int) {
 	curRec[t.id] = &t.rec
 	t.rec.reset(o.Faults)
 	t.rec.Panics = o.Panics
+	t.rec.LibErr = o.LibErr
 	evalOn := func(pf *ParsedFn, judge bool) {
 		d := w.docOf(t, o.Doc)
 		var before interface{}
@@ -778,4 +780,19 @@ func opLabel(k int) int {
 		return 6
 	}
 	return 7
+}
+
+// drawPanicsAlways makes one call (the 1st-5th) of one used function panic.
+func drawPanicsAlways(usable uint32) (p [nFuncs]uint64) {
+	var fs []int
+	for k := 0; k < nFuncs; k++ {
+		if usable&(1<<uint(k)) != 0 {
+			fs = append(fs, k)
+		}
+	}
+	if len(fs) == 0 {
+		return
+	}
+	p[fs[rn(len(fs))]] = 1 << uint(rn(5))
+	return
 }
